@@ -1,0 +1,249 @@
+//go:build verif
+
+// Contracts for package modfile, read by /verif/engine (govc).  Comment-only.
+
+package modfile
+
+//@ # ---------- syntax-tree primitives (read.go) ----------
+//@ func (*Comments).Comment
+//@   ensures result == c
+//@   props C15 C08 C16
+
+//@ func (*Line).markRemoved
+//@   modifies Line.Token, Comments.Suffix
+//@   ensures line != nil ==> len(line.Token) == 0 && line.Token == nil
+//@   ensures forall l *Line :: l != line ==> l.Token == old(l.Token)
+//@   props C15 C08 C16
+
+//@ func (*FileSyntax).updateLine
+//@   requires line != nil && len(tokens) >= 1
+//@   modifies Line.Token
+//@   ensures line.Token == (if line.InBlock then tokens[1:] else tokens)
+//@   ensures forall l *Line :: l != line ==> l.Token == old(l.Token)
+//@   props C15 C08 C16
+
+//@ # addLine and Cleanup restructure the statement list; their effect on the typed lists is only through the
+//@ # lines they return / keep.  Bodies are not verified yet (trusted summaries).
+//@ func (*FileSyntax).addLine
+//@   trusted "statement-list surgery (type switches over Expr, in-place block conversion); summary of its documented effect"
+//@   requires x != nil && len(tokens) >= 1
+//@   modifies FileSyntax.Stmt, []Expr, LineBlock.Line, LineBlock.Token, []*Line, Line.Token, Line.InBlock
+//@   allocates
+//@   ensures result != nil && fresh(result)
+//@   ensures result.Token == (if result.InBlock then tokens[1:] else tokens)
+//@   props C15 C08 C16
+
+//@ func (*FileSyntax).Cleanup
+//@   trusted "statement-list compaction; touches only syntax nodes"
+//@   modifies FileSyntax.Stmt, []Expr, LineBlock.Line, []*Line, Line.Token, Line.InBlock, Comments.Before, Comments.Suffix, Comments.After, Line.Start, Line.End, []string, []Comment
+//@   allocates
+//@   props C15 C08 C16
+
+//@ # ---------- no cleared placeholder entries after Cleanup (C15) ----------
+//@ spec macro NONNIL_REQ(f *File) bool =
+//@     (forall i int :: 0 <= i && i < len(f.Godebug) ==> f.Godebug[i] != nil)
+//@     && (forall i int :: 0 <= i && i < len(f.Require) ==> f.Require[i] != nil)
+//@     && (forall i int :: 0 <= i && i < len(f.Exclude) ==> f.Exclude[i] != nil)
+//@     && (forall i int :: 0 <= i && i < len(f.Replace) ==> f.Replace[i] != nil)
+//@     && (forall i int :: 0 <= i && i < len(f.Retract) ==> f.Retract[i] != nil)
+//@     && (forall i int :: 0 <= i && i < len(f.Tool) ==> f.Tool[i] != nil)
+//@ spec macro CLEAN_GODEBUG(f *File) bool = forall i int :: 0 <= i && i < len(f.Godebug) ==> f.Godebug[i] != nil && f.Godebug[i].Key != ""
+//@ spec macro CLEAN_REQUIRE(f *File) bool = forall i int :: 0 <= i && i < len(f.Require) ==> f.Require[i] != nil && f.Require[i].Mod.Path != ""
+//@ spec macro CLEAN_EXCLUDE(f *File) bool = forall i int :: 0 <= i && i < len(f.Exclude) ==> f.Exclude[i] != nil && f.Exclude[i].Mod.Path != ""
+//@ spec macro CLEAN_REPLACE(f *File) bool = forall i int :: 0 <= i && i < len(f.Replace) ==> f.Replace[i] != nil && f.Replace[i].Old.Path != ""
+//@ spec macro CLEAN_RETRACT(f *File) bool = forall i int :: 0 <= i && i < len(f.Retract) ==> f.Retract[i] != nil && (f.Retract[i].Low != "" || f.Retract[i].High != "")
+//@ spec macro CLEAN_TOOL(f *File) bool = forall i int :: 0 <= i && i < len(f.Tool) ==> f.Tool[i] != nil && f.Tool[i].Path != ""
+
+//@ func (*File).Cleanup
+//@   requires f != nil && f.Syntax != nil && NONNIL_REQ(f)
+//@   modifies File.Godebug, File.Require, File.Exclude, File.Replace, File.Retract, File.Tool, []*Godebug, []*Require, []*Exclude, []*Replace, []*Retract, []*Tool
+//@   modifies FileSyntax.Stmt, []Expr, LineBlock.Line, []*Line, Line.Token, Line.InBlock, Comments.Before, Comments.Suffix, Comments.After, Line.Start, Line.End, []string, []Comment
+//@   ensures [C15] clean_godebug: CLEAN_GODEBUG(f)
+//@   ensures [C15] clean_require: CLEAN_REQUIRE(f)
+//@   ensures [C15] clean_exclude: CLEAN_EXCLUDE(f)
+//@   ensures [C15] clean_replace: CLEAN_REPLACE(f)
+//@   ensures [C15] clean_retract: CLEAN_RETRACT(f)
+//@   ensures [C15] clean_tool: CLEAN_TOOL(f)
+//@   loop 0:
+//@     invariant 0 - 1 <= @idx && @idx < len(f.Godebug) && 0 <= w && w <= @idx + 1 && f.Godebug == pre(f.Godebug)
+//@     invariant forall k int :: 0 <= k && k < w ==> f.Godebug[k] != nil && f.Godebug[k].Key != ""
+//@     invariant forall k int :: @idx < k && k < len(f.Godebug) ==> f.Godebug[k] != nil
+//@     decreases len(f.Godebug) - @idx
+//@   loop 1:
+//@     invariant 0 - 1 <= @idx && @idx < len(f.Require) && 0 <= w && w <= @idx + 1 && f.Require == pre(f.Require)
+//@     invariant forall k int :: 0 <= k && k < w ==> f.Require[k] != nil && f.Require[k].Mod.Path != ""
+//@     invariant forall k int :: @idx < k && k < len(f.Require) ==> f.Require[k] != nil
+//@     decreases len(f.Require) - @idx
+//@   loop 2:
+//@     invariant 0 - 1 <= @idx && @idx < len(f.Exclude) && 0 <= w && w <= @idx + 1 && f.Exclude == pre(f.Exclude)
+//@     invariant forall k int :: 0 <= k && k < w ==> f.Exclude[k] != nil && f.Exclude[k].Mod.Path != ""
+//@     invariant forall k int :: @idx < k && k < len(f.Exclude) ==> f.Exclude[k] != nil
+//@     decreases len(f.Exclude) - @idx
+//@   loop 3:
+//@     invariant 0 - 1 <= @idx && @idx < len(f.Replace) && 0 <= w && w <= @idx + 1 && f.Replace == pre(f.Replace)
+//@     invariant forall k int :: 0 <= k && k < w ==> f.Replace[k] != nil && f.Replace[k].Old.Path != ""
+//@     invariant forall k int :: @idx < k && k < len(f.Replace) ==> f.Replace[k] != nil
+//@     decreases len(f.Replace) - @idx
+//@   loop 4:
+//@     invariant 0 - 1 <= @idx && @idx < len(f.Retract) && 0 <= w && w <= @idx + 1 && f.Retract == pre(f.Retract)
+//@     invariant forall k int :: 0 <= k && k < w ==> f.Retract[k] != nil && (f.Retract[k].Low != "" || f.Retract[k].High != "")
+//@     invariant forall k int :: @idx < k && k < len(f.Retract) ==> f.Retract[k] != nil
+//@     decreases len(f.Retract) - @idx
+//@   loop 5:
+//@     invariant 0 - 1 <= @idx && @idx < len(f.Tool) && 0 <= w && w <= @idx + 1 && f.Tool == pre(f.Tool)
+//@     invariant forall k int :: 0 <= k && k < w ==> f.Tool[k] != nil && f.Tool[k].Path != ""
+//@     invariant forall k int :: @idx < k && k < len(f.Tool) ==> f.Tool[k] != nil
+//@     decreases len(f.Tool) - @idx
+//@   props C15
+
+//@ spec macro CLEANW_USE(f *WorkFile) bool = forall i int :: 0 <= i && i < len(f.Use) ==> f.Use[i] != nil && f.Use[i].Path != ""
+//@ spec macro CLEANW_REPLACE(f *WorkFile) bool = forall i int :: 0 <= i && i < len(f.Replace) ==> f.Replace[i] != nil && f.Replace[i].Old.Path != ""
+//@ spec macro CLEANW_GODEBUG(f *WorkFile) bool = forall i int :: 0 <= i && i < len(f.Godebug) ==> f.Godebug[i] != nil && f.Godebug[i].Key != ""
+//@ spec macro NONNILW(f *WorkFile) bool =
+//@     (forall i int :: 0 <= i && i < len(f.Godebug) ==> f.Godebug[i] != nil)
+//@     && (forall i int :: 0 <= i && i < len(f.Use) ==> f.Use[i] != nil)
+//@     && (forall i int :: 0 <= i && i < len(f.Replace) ==> f.Replace[i] != nil)
+
+//@ func (*WorkFile).Cleanup
+//@   requires f != nil && f.Syntax != nil && NONNILW(f)
+//@   modifies WorkFile.Godebug, WorkFile.Use, WorkFile.Replace, []*Godebug, []*Use, []*Replace
+//@   modifies FileSyntax.Stmt, []Expr, LineBlock.Line, []*Line, Line.Token, Line.InBlock, Comments.Before, Comments.Suffix, Comments.After, Line.Start, Line.End, []string, []Comment
+//@   ensures [C15] clean_use: CLEANW_USE(f)
+//@   ensures [C15] clean_replace: CLEANW_REPLACE(f)
+//@   ensures [C15] clean_godebug: CLEANW_GODEBUG(f)
+//@   loop 0:
+//@     invariant 0 - 1 <= @idx && @idx < len(f.Godebug) && 0 <= w && w <= @idx + 1 && f.Godebug == pre(f.Godebug)
+//@     invariant forall k int :: 0 <= k && k < w ==> f.Godebug[k] != nil && f.Godebug[k].Key != ""
+//@     invariant forall k int :: @idx < k && k < len(f.Godebug) ==> f.Godebug[k] != nil
+//@     decreases len(f.Godebug) - @idx
+//@   loop 1:
+//@     invariant 0 - 1 <= @idx && @idx < len(f.Use) && 0 <= w && w <= @idx + 1 && f.Use == pre(f.Use)
+//@     invariant forall k int :: 0 <= k && k < w ==> f.Use[k] != nil && f.Use[k].Path != ""
+//@     invariant forall k int :: @idx < k && k < len(f.Use) ==> f.Use[k] != nil
+//@     decreases len(f.Use) - @idx
+//@   loop 2:
+//@     invariant 0 - 1 <= @idx && @idx < len(f.Replace) && 0 <= w && w <= @idx + 1 && f.Replace == pre(f.Replace)
+//@     invariant forall k int :: 0 <= k && k < w ==> f.Replace[k] != nil && f.Replace[k].Old.Path != ""
+//@     invariant forall k int :: @idx < k && k < len(f.Replace) ==> f.Replace[k] != nil
+//@     decreases len(f.Replace) - @idx
+//@   props C15
+
+//@ # ---------- helpers ----------
+//@ func MustQuote
+//@   pure
+//@   trusted "character scan with unicode.IsPrint; only its purity is used here"
+//@   props C15 C08 C16
+//@ func AutoQuote
+//@   pure
+//@   ensures !MustQuote(s) ==> result == s
+//@   props C15 C08 C16
+//@ func checkCanonicalVersion
+//@   allocates
+//@   trusted "delegates to module.SplitPathVersion/CanonicalVersion/CheckPathMajor (C06/C04); only its frame (no writes) is used here"
+//@   props C15 C08 C16
+
+//@ # ---------- AddRetract records the retraction in the typed list (C15: later operations see it) ----------
+//@ func (*File).AddRetract
+//@   requires f != nil && f.Syntax != nil && (f.Module != nil ==> true)
+//@   modifies File.Retract, []*Retract
+//@   modifies FileSyntax.Stmt, []Expr, LineBlock.Line, LineBlock.Token, []*Line, Line.Token, Line.InBlock, Comments.Before, []Comment
+//@   ensures [C15, C08] recorded: result == nil ==> len(f.Retract) == old(len(f.Retract)) + 1
+//@             && f.Retract[len(f.Retract)-1] != nil && f.Retract[len(f.Retract)-1].Low == vi.Low && f.Retract[len(f.Retract)-1].High == vi.High
+//@             && f.Retract[len(f.Retract)-1].Rationale == rationale && f.Retract[len(f.Retract)-1].Syntax != nil
+//@   loop 0:
+//@     invariant 0 - 1 <= @idx && @idx <= 4611686018427387904 && r != nil && r.Syntax != nil && fresh(r)
+//@   props C15 C08
+
+//@ # ---------- replace directives: the typed entry and its line agree on the old version (C15) ----------
+//@ # directive tokens start after the verb when the line is not in a block
+//@ spec macro TB(l *Line) int = if l.InBlock then 0 else 1
+//@ spec macro OLDVER_OK(r *Replace) bool =
+//@     r.Syntax != nil && len(r.Syntax.Token) >= TB(r.Syntax) + 3
+//@     && r.Syntax.Token[TB(r.Syntax)] == AutoQuote(r.Old.Path)
+//@     && ((r.Old.Version != "" && r.Syntax.Token[TB(r.Syntax) + 1] == r.Old.Version && r.Syntax.Token[TB(r.Syntax) + 2] == "=>")
+//@         || (r.Old.Version == "" && r.Syntax.Token[TB(r.Syntax) + 1] == "=>"))
+//@ spec macro REPLACE_WF(rs []*Replace) bool =
+//@     (forall i int :: 0 <= i && i < len(rs) ==> rs[i] != nil)
+//@     && (forall i int :: 0 <= i && i < len(rs) && rs[i].Old.Path != "" ==> OLDVER_OK(rs[i]) && rs[i].Old.Version != "=>")
+//@     && (forall i int, j int :: 0 <= i && i < j && j < len(rs) ==> rs[i] != rs[j])
+//@     && (forall i int, j int :: 0 <= i && i < j && j < len(rs) && rs[i].Old.Path != "" && rs[j].Old.Path != "" ==> rs[i].Syntax != rs[j].Syntax)
+
+//@ func addReplace
+//@   requires syntax != nil && replace != nil && REPLACE_WF(*replace) && oldVers != "=>" && oldPath != ""
+//@   modifies *[]*Replace, []*Replace, Replace.Old, Replace.New, Replace.Syntax, module.Version.Path, module.Version.Version
+//@   modifies FileSyntax.Stmt, []Expr, LineBlock.Line, LineBlock.Token, []*Line, Line.Token, Line.InBlock, Comments.Suffix
+//@   # when an existing directive is updated (no line is added), every live entry still agrees with its line
+//@   ensures [C15, C08] updated_agrees: (exists i int :: 0 <= i && i < len(old(*replace)) && old((*replace)[i].Old.Path) == oldPath && (oldVers == "" || old((*replace)[i].Old.Version) == oldVers))
+//@             ==> (forall i int :: 0 <= i && i < len(*replace) && (*replace)[i].Old.Path != "" ==> OLDVER_OK((*replace)[i]))
+//@   loop 0:
+//@     invariant 0 - 1 <= @idx && @idx < len(*replace) && *replace == pre(*replace)
+//@     invariant len(tokens) >= 4 && tokens[0] == "replace" && tokens[1] == AutoQuote(oldPath) && (oldVers != "" ==> tokens[2] == oldVers && tokens[3] == "=>") && (oldVers == "" ==> tokens[2] == "=>")
+//@     invariant [C15, C08] agrees: forall i int :: 0 <= i && i < len(*replace) && (*replace)[i].Old.Path != "" ==> OLDVER_OK((*replace)[i]) && (*replace)[i].Old.Version != "=>"
+//@     invariant forall i int, j int :: 0 <= i && i < j && j < len(*replace) && (*replace)[i].Old.Path != "" && (*replace)[j].Old.Path != "" ==> (*replace)[i].Syntax != (*replace)[j].Syntax
+//@     invariant need ==> (forall i int :: 0 <= i && i <= @idx ==> !(old((*replace)[i].Old.Path) == oldPath && (oldVers == "" || old((*replace)[i].Old.Version) == oldVers)))
+//@     invariant need ==> (forall i int :: 0 <= i && i < len(*replace) ==> (*replace)[i].Old.Path == old((*replace)[i].Old.Path) && (*replace)[i].Old.Version == old((*replace)[i].Old.Version))
+//@     decreases len(*replace) - @idx
+//@   props C15 C08
+
+//@ # ---------- go.work use directives (C16) ----------
+//@ func (*WorkFile).SortBlocks
+//@   trusted "sort.SliceStable over syntax blocks plus removeDups on replace directives; does not touch the use list"
+//@   requires f != nil
+//@   modifies WorkFile.Replace, []*Replace, Replace.Old, Replace.New, Replace.Syntax, module.Version.Path, module.Version.Version
+//@   modifies FileSyntax.Stmt, []Expr, LineBlock.Line, []*Line, Line.Token, Line.InBlock, Comments.Suffix
+//@   allocates
+//@   props C16 C15
+
+//@ func (*WorkFile).AddNewUse
+//@   requires f != nil && f.Syntax != nil
+//@   modifies WorkFile.Use, []*Use
+//@   modifies FileSyntax.Stmt, []Expr, LineBlock.Line, LineBlock.Token, []*Line, Line.Token, Line.InBlock
+//@   ensures len(f.Use) == old(len(f.Use)) + 1
+//@   ensures f.Use[len(f.Use)-1] != nil && fresh(f.Use[len(f.Use)-1]) && f.Use[len(f.Use)-1].Path == diskPath && f.Use[len(f.Use)-1].ModulePath == modulePath && f.Use[len(f.Use)-1].Syntax != nil
+//@   ensures forall i int :: 0 <= i && i < old(len(f.Use)) ==> f.Use[i] == old(f.Use[i])
+//@   ensures framearr(old(f.Use))
+//@   props C16 C15
+
+//@ spec macro USE_NONNIL(f *WorkFile) bool = (forall i int :: 0 <= i && i < len(f.Use) ==> f.Use[i] != nil && (f.Use[i].Path != "" ==> f.Use[i].Syntax != nil))
+//@     && (forall i int, j int :: 0 <= i && i < j && j < len(f.Use) ==> f.Use[i] != f.Use[j])
+//@ # exactly one live use directive per path
+//@ spec macro USE_DISTINCT(f *WorkFile) bool =
+//@     forall i int, j int :: 0 <= i && i < j && j < len(f.Use) && f.Use[i].Path != "" && f.Use[j].Path != "" ==> f.Use[i].Path != f.Use[j].Path
+
+//@ spec macro REQ(dirs []*Use, k string) bool = exists d int :: 0 <= d && d < len(dirs) && dirs[d].Path == k
+//@ spec macro REQMP(dirs []*Use, k string, m string) bool = exists d int :: 0 <= d && d < len(dirs) && dirs[d].Path == k && dirs[d].ModulePath == m
+//@ spec macro NEED_OK(dirs []*Use, need map[string]string) bool = forall k string :: has(need, k) ==> REQMP(dirs, k, need[k])
+
+//@ func (*WorkFile).SetUse
+//@   requires f != nil && f.Syntax != nil && USE_NONNIL(f)
+//@   requires forall d int :: 0 <= d && d < len(dirs) ==> dirs[d] != nil && dirs[d].Path != ""
+//@   requires forall d int, e int :: 0 <= d && d < e && e < len(dirs) ==> dirs[d].Path != dirs[e].Path
+//@   requires forall d int, i int :: 0 <= d && d < len(dirs) && 0 <= i && i < len(f.Use) ==> dirs[d] != f.Use[i]
+//@   requires !samearr(dirs, f.Use)
+//@   modifies *
+//@   ensures [C16] one_per_path: USE_DISTINCT(f)
+//@   ensures [C16] all_requested: forall d int :: 0 <= d && d < len(dirs) ==> (exists i int :: 0 <= i && i < len(f.Use) && f.Use[i].Path == dirs[d].Path && f.Use[i].ModulePath == dirs[d].ModulePath)
+//@   ensures [C16] only_requested: forall i int :: 0 <= i && i < len(f.Use) && f.Use[i].Path != "" ==> REQ(dirs, f.Use[i].Path)
+//@   loop 0:
+//@     invariant 0 - 1 <= @idx && @idx < len(dirs) && need != nil
+//@     invariant NEED_OK(dirs, need)
+//@     invariant forall d int :: 0 <= d && d <= @idx ==> has(need, dirs[d].Path) && need[dirs[d].Path] == dirs[d].ModulePath
+//@     decreases len(dirs) - @idx
+//@   loop 1:
+//@     invariant 0 - 1 <= @idx && @idx < len(f.Use) && need != nil && f.Use == pre(f.Use) && USE_NONNIL(f)
+//@     invariant forall d int :: 0 <= d && d < len(dirs) ==> dirs[d] == old(dirs[d]) && dirs[d].Path == old(dirs[d].Path) && dirs[d].ModulePath == old(dirs[d].ModulePath)
+//@     invariant forall d int, i int :: 0 <= d && d < len(dirs) && 0 <= i && i < len(f.Use) ==> dirs[d] != f.Use[i]
+//@     invariant NEED_OK(dirs, need)
+//@     # processed live entries: requested, with the requested module path, no longer needed, pairwise distinct
+//@     invariant forall i int :: 0 <= i && i <= @idx && f.Use[i].Path != "" ==> REQMP(dirs, f.Use[i].Path, f.Use[i].ModulePath) && !has(need, f.Use[i].Path)
+//@     invariant forall i int, j int :: 0 <= i && i < j && j <= @idx && f.Use[i].Path != "" && f.Use[j].Path != "" ==> f.Use[i].Path != f.Use[j].Path
+//@     # every requested path is still needed or already present among the processed entries
+//@     invariant forall d int :: 0 <= d && d < len(dirs) ==> (has(need, dirs[d].Path) && need[dirs[d].Path] == dirs[d].ModulePath) || (exists i int :: 0 <= i && i <= @idx && f.Use[i].Path == dirs[d].Path && f.Use[i].ModulePath == dirs[d].ModulePath)
+//@     decreases len(f.Use) - @idx
+//@   loop 2:
+//@     invariant need != nil && USE_NONNIL(f) && NEED_OK(dirs, need) && !samearr(dirs, f.Use)
+//@     invariant forall d int :: 0 <= d && d < len(dirs) ==> dirs[d] == old(dirs[d]) && dirs[d] != nil && dirs[d].Path != ""
+//@     invariant forall i int :: 0 <= i && i < len(f.Use) && f.Use[i].Path != "" ==> REQ(dirs, f.Use[i].Path) && !(has(need, f.Use[i].Path) && !visited(f.Use[i].Path))
+//@     invariant USE_DISTINCT(f)
+//@     invariant forall d int :: 0 <= d && d < len(dirs) ==> (has(need, dirs[d].Path) && !visited(dirs[d].Path) && need[dirs[d].Path] == dirs[d].ModulePath) || (exists i int :: 0 <= i && i < len(f.Use) && f.Use[i].Path == dirs[d].Path && f.Use[i].ModulePath == dirs[d].ModulePath)
+//@   props C16
